@@ -38,6 +38,9 @@ def gen_race(rng):
     nes = rng.choice([2, 3])
     lines = ["SEED %d" % rng.randint(1, 10**9), "NES %d" % nes, "WATCHDOG 10", "VCLOCK 1",
              "PAIR 0 %s %s" % (rng.choice(["plain", "rec", "static"]), rng.choice(["dyn", "static"]))]
+    if rng.random() < 0.5:
+        # one pool shared by the secondary streams: a polling / blocked ULT continues on another stream
+        lines.insert(2, "SHARED 1")
     nw = rng.randint(2, 5)
     for t in range(nw):
         kind = rng.choice("UUUE")
@@ -77,6 +80,8 @@ def gen_scenario(rng, big=False):
     ck = [rng.choice(["dyn", "dyn", "static"]) for _ in range(npair)]
     nthr = rng.randint(3, 8 if big else 6)
     lines = ["SEED %d" % rng.randint(1, 10**9), "NES %d" % nes, "WATCHDOG 10", "VCLOCK 1"]
+    if nes >= 2 and rng.random() < 0.4:
+        lines.insert(2, "SHARED 1")
     for i in range(npair):
         lines.append("PAIR %d %s %s" % (i, mk[i], ck[i]))
     style = rng.choice(["mixed", "mixed", "signal", "bcast", "timed"])
